@@ -187,7 +187,7 @@ type Exec struct {
 
 	ledger       []ackedRecord
 	didAccepted  []acceptedDidMsg
-	signMap      map[string]string // sign-bytes hash -> body hash (C14 injectivity)
+	signMap      map[string]signedBody // sign-bytes hash -> message list it was computed for (C14 injectivity)
 	nextPlan     *upgradetypes.Plan
 	snapshots    map[int64]*SimDB // DB of R0 right after Commit(h) (for crash enumeration)
 	simTime      time.Duration
@@ -199,13 +199,14 @@ type Exec struct {
 	H0           int64 // height of the (virtual) block before the first one: the chain starts at H0+1
 	touchedByFailed map[string]bool // entities named by messages of a failed multi-message transaction
 	KeepApps     bool
+	lastBlockParams string
 	OnCommit     func(h int64) // race sub-check: called on the block goroutine after every Commit of the reference replica
 }
 
 func NewExec(s *Script, env *Env, scratch string, known *KnownFindings, tracePath string) *Exec {
 	return &Exec{S: s, Env: env, Scratch: scratch, Prop: s.Property, Known: known,
 		Built: map[int]*BuiltTx{}, BuiltMsgs: map[int][]sdk.Msg{}, Trace: NewTrace(tracePath), Stats: &Stats{C: map[string]int64{}},
-		tainted: map[string]bool{}, signMap: map[string]string{}, snapshots: map[int64]*SimDB{}, writerRemoved: map[string]bool{}}
+		tainted: map[string]bool{}, signMap: map[string]signedBody{}, snapshots: map[int64]*SimDB{}, writerRemoved: map[string]bool{}}
 }
 
 // ---------------------------------------------------------------------------------------------
@@ -340,6 +341,8 @@ func (e *Exec) Run() {
 			}
 		case "bootstrap":
 			e.bootstrap(st)
+		case "restart0":
+			e.restartReference()
 		case "hquery":
 			e.hostileQuery(st.HQ)
 		case "simulate":
@@ -355,6 +358,33 @@ func (e *Exec) Run() {
 		e.finalChecks()
 	}
 	e.Trace.Ev("end blocks=%d violations=%d known=%d foreign=%d", len(e.Blocks), len(e.Viol), len(e.KnownHits), len(e.Foreign))
+}
+
+// restartReference stops the reference replica cleanly between two blocks and starts it again on its database.
+// Nothing is lost on disk; whatever the application kept in process memory only is. From here on the
+// per-transaction oracles judge a restarted node, and the other replicas are compared with it.
+func (e *Exec) restartReference() {
+	r0 := e.R[0]
+	if r0.inBlock || r0.App == nil || len(e.Blocks) == 0 {
+		return
+	}
+	r0.Kill(-1)
+	r0.Restarts++
+	e.Stats.Inc("fault.restart.reference")
+	prop := "C10"
+	if e.nearUpgrade(e.head()) || e.nearUpgrade(e.head()+1) {
+		prop = "C19"
+	}
+	if err := r0.Start(); err != nil {
+		e.viol(prop, "node.start_failed", "", "the reference replica cannot be started again on its own database after a clean stop at height %d: %v", e.head(), err)
+		e.stop = true
+		return
+	}
+	if _, ok := e.verifyRestartState(r0.Node, false, r0.FirstHeight, []int64{e.head()}, "reference replica after a clean stop"); !ok {
+		e.stop = true
+		return
+	}
+	e.Trace.Ev("reference replica restarted at height %d", e.head())
 }
 
 func (e *Exec) initChain() bool {
@@ -1294,7 +1324,14 @@ func (e *Exec) judgeTx(p *pendingTx, bt *BuiltTx, pred *prediction, accepted boo
 			} else if e.Prop == "C15" && hasNamedFeePayer(bt.Msgs) {
 				prop = "C15"
 			}
-			e.viol(prop, class, ent, "tx %s was accepted although %s (modes %v)", desc, pred.SigWhy, sigModes(bt))
+			kind := ""
+			if pred.Tampered && len(bt.Sigs) > 0 {
+				kind = " [signed list and delivered list: other]"
+				if sh := bt.Sigs[0].Shape; sh.Types != bt.Shape.Types && sh.Content == bt.Shape.Content {
+					kind = " [signed list and delivered list: sibling types, equal field values]"
+				}
+			}
+			e.viol(prop, class, ent, "tx %s was accepted although %s (modes %v)%s", desc, pred.SigWhy, sigModes(bt), kind)
 			e.resync(r0.DeliverStores())
 		}
 		return
@@ -1305,7 +1342,8 @@ func (e *Exec) judgeTx(p *pendingTx, bt *BuiltTx, pred *prediction, accepted boo
 		}
 		return
 	}
-	if tr.Codespace == "sdk" && tr.Code == 11 { // harness gave too little gas: not a verdict
+	if tr.Codespace == "sdk" && (tr.Code == 11 || tr.Code == 41) {
+		// the harness gave too little gas, or more than the block.max_gas a governance proposal has set: not a verdict
 		return
 	}
 	switch pred.Handler {
@@ -1468,6 +1506,23 @@ func (e *Exec) isResubmission(p *pendingTx) bool {
 	return false
 }
 
+// resubmitsAcceptedDid: transaction id carries (as a byte-for-byte replay or through "reuse") a DID message that
+// the reference replica accepted earlier.
+func (e *Exec) resubmitsAcceptedDid(id int) bool {
+	spec, ok := e.S.stepTx(id)
+	if !ok || spec == nil {
+		return false
+	}
+	if spec.ReplayOf != 0 {
+		for _, a := range e.didAccepted {
+			if a.TxID == spec.ReplayOf {
+				return true
+			}
+		}
+	}
+	return e.isResubmission(&pendingTx{ID: id, Spec: spec})
+}
+
 func isStatelessRejection(tr TxResult) bool {
 	// a stateless rejection happens before any gas is spent on signature verification or handlers;
 	// recognised by the message's own error codespace combined with zero events is unreliable, so
@@ -1594,27 +1649,37 @@ func (e *Exec) checkCoins(id int, desc string, bt *BuiltTx, pred *prediction, pr
 
 // checkSignBytes: C14 — history-wide injectivity of sign bytes.
 func (e *Exec) checkSignBytes(id int, bt *BuiltTx) {
+	note := func(k string, mode SigMode, body string, shape bodyShape, sb []byte, what string) {
+		if prev, ok := e.signMap[k]; ok && prev.Body != body {
+			// which kind of collision: messages of sibling types that carry the same field values (explained by the
+			// type-less amino encoding, F10), or anything else (same types with different values, different content)
+			kind := "other"
+			if prev.Shape.Types != shape.Types && prev.Shape.Content == shape.Content {
+				kind = "sibling-types"
+			} else if prev.Shape.Types == shape.Types {
+				kind = "same-types"
+			}
+			e.viol("C14", "signbytes.collision", "signbytes:"+string(mode)+":"+kind, "two different message lists share %s sign bytes (tx %d%s; types %s vs %s): bytes=%s", mode, id, what, prev.Shape.Types, shape.Types, trunc(string(sb), 300))
+		}
+		e.signMap[k] = signedBody{Body: body, Shape: shape}
+	}
 	for i, sb := range bt.SignBytes {
 		if i >= len(bt.Sigs) {
 			break
 		}
-		k := string(bt.Sigs[i].Mode) + "|" + hex.EncodeToString(sha256sum(sb))
-		body := bt.Sigs[i].BodyHash
-		if prev, ok := e.signMap[k]; ok && prev != body {
-			e.viol("C14", "signbytes.collision", "signbytes:"+string(bt.Sigs[i].Mode), "two different message lists share %s sign bytes (tx %d): bytes=%s", bt.Sigs[i].Mode, id, trunc(string(sb), 300))
-		}
-		e.signMap[k] = body
+		note(string(bt.Sigs[i].Mode)+"|"+hex.EncodeToString(sha256sum(sb)), bt.Sigs[i].Mode, bt.Sigs[i].BodyHash, bt.Sigs[i].Shape, sb, "")
 	}
 	for i, sb := range bt.AltSignBytes {
 		if i >= len(bt.Sigs) || sb == nil {
 			continue
 		}
-		k := string(bt.Sigs[i].Mode) + "|" + hex.EncodeToString(sha256sum(sb))
-		if prev, ok := e.signMap[k]; ok && prev != bt.BodyHash {
-			e.viol("C14", "signbytes.collision", "signbytes:"+string(bt.Sigs[i].Mode), "two different message lists share %s sign bytes (tx %d, tampered variant): bytes=%s", bt.Sigs[i].Mode, id, trunc(string(sb), 300))
-		}
-		e.signMap[k] = bt.BodyHash
+		note(string(bt.Sigs[i].Mode)+"|"+hex.EncodeToString(sha256sum(sb)), bt.Sigs[i].Mode, bt.BodyHash, bt.Shape, sb, ", tampered variant")
 	}
+}
+
+type signedBody struct {
+	Body  string
+	Shape bodyShape
 }
 
 // recomputeSignBytes: "the sign bytes of a given message are identical on every node and every time they are computed":
